@@ -311,6 +311,9 @@ func Encode(g *resolve.Graph, err error) string {
 		}
 		lines = append(lines, fmt.Sprintf("%s%s #%s errs%v\n    %s", p, nd.Version.String(), col[i][:8], es, strings.Join(os, "\n    ")))
 	}
+	if len(lines) == 0 {
+		return "<no nodes>\nGRAPH-ERROR: " + g.Error
+	}
 	root := lines[0]
 	rest := lines[1:]
 	sort.Strings(rest)
